@@ -281,3 +281,18 @@ def compare(ctx, cases, results, what):
 def evaluate_impl_only(ctx, cases, decode):
     impl = ctx.harness('frames', [to_line(c) for c in cases], args=['--decode', decode], shards=8)
     return [strip_stats(i)[0] for i in impl]
+
+
+def load_corpus(prop, name):
+    """corpus/<prop>/<name>: one harness input line per case (minimized past disagreements, e.g. the
+    shrunk cases that killed the mutants tried during development); always run first"""
+    import os
+    path = os.path.join(os.path.dirname(os.path.dirname(os.path.dirname(os.path.abspath(__file__)))), 'corpus', prop, name)
+    if not os.path.exists(path):
+        return []
+    return [l.strip() for l in open(path) if l.strip() and not l.startswith('#')]
+
+
+def case_from_line(line):
+    parts = line.split()
+    return (parts[0], parts[1], parts[2], [b'' if c == '-' else bytes.fromhex(c) for c in parts[3:]])
